@@ -1756,8 +1756,10 @@ impl<'a> CompositionGraphEncoder<'a> {
         // imported; this can happen based on importing of shared dependencies
         if let ItemKind::Instance(id) = kind {
             if let Some(id) = &types[id].id {
-                if let Some(index) = state.current.instances.get(id) {
-                    return *index;
+                if id == name {
+                    if let Some(index) = state.current.instances.get(id) {
+                        return *index;
+                    }
                 }
             }
         }
@@ -1799,10 +1801,12 @@ impl<'a> CompositionGraphEncoder<'a> {
             }
             ItemKind::Instance(id) => {
                 if let Some(id) = &types[id].id {
-                    log::debug!(
-                        "interface `{id}` is available for aliasing as instance index {index}"
-                    );
-                    state.current.instances.insert(id.clone(), index);
+                    if id == name || !state.current.instances.contains_key(id) {
+                        log::debug!(
+                            "interface `{id}` is available for aliasing as instance index {index}"
+                        );
+                        state.current.instances.insert(id.clone(), index);
+                    }
                 }
             }
             _ => {}
